@@ -476,6 +476,7 @@ static int load_instruments(struct module_data *m, int version, HIO_HANDLE *f)
 	for (i = 0; i < mod->ins; i++) {
 		long instr_pos = hio_tell(f);
 		struct xmp_instrument *xxi = &mod->xxi[i];
+		int got;
 
 		/* Modules converted with MOD2XM 1.0 always say we have 31
 		 * instruments, but file may end abruptly before that. Also covers
@@ -486,9 +487,16 @@ static int load_instruments(struct module_data *m, int version, HIO_HANDLE *f)
 		 * sample header size (if it exists). This is NOT considered to
 		 * be part of the instrument header.
 		 */
-		if (hio_read(buf, XM_INST_HEADER_SIZE + 4, 1, f) != 1) {
+		memset(buf, 0, XM_INST_HEADER_SIZE + 4);
+		got = hio_read(buf, 1, XM_INST_HEADER_SIZE + 4, f);
+		if (got < XM_INST_HEADER_SIZE) {
 			D_(D_WARN "short read in instrument header data");
 			break;
+		}
+		/* A final instrument without samples may carry the plain 29-byte
+		 * header of the format description: the 4 extra bytes are absent. */
+		if (got < XM_INST_HEADER_SIZE + 4) {
+			hio_error(f);	/* clear the EOF status */
 		}
 
 		xih.size = readmem32l(buf);		/* Instrument size */
@@ -530,7 +538,7 @@ static int load_instruments(struct module_data *m, int version, HIO_HANDLE *f)
 			 * generalization should take care of both cases.
 			 */
 
-			if (hio_seek(f, (int)xih.size - (XM_INST_HEADER_SIZE + 4), SEEK_CUR) < 0) {
+			if (hio_seek(f, (int)xih.size - got, SEEK_CUR) < 0) {
 				return -1;
 			}
 
